@@ -229,6 +229,7 @@ def chunks(tier, seed):
     for o in orders:
         out.append(('case_roundtrip', [dict(order=list(o), seed=seed)]))
     out.append(('case_roundtrip4', [dict(seed=seed + k, count=100) for k in range(2 if tier == 'quick' else 30)]))
+    out.append(('case_roundtrip_after_undeclare', [dict(seed=seed + k) for k in range(20 if tier == 'quick' else 300)]))
     out.append(('case_doc_grammar', [dict(kind='lowercase-constant'), dict(kind='dotted-name')]))
     out.append(('case_two_managers', [dict(seed=seed + k) for k in range(10 if tier == 'quick' else 200)]))
     return out
@@ -395,3 +396,36 @@ def case_doc_grammar(c, res):
             raise Viol('add_expr#doc-grammar:dotted-name', f'{type(e).__name__}: {e}')
         require(ok, 'add_expr#doc-grammar:dotted-name', 'wrong value')
     return c['kind']
+
+
+def case_roundtrip_after_undeclare(c, res):
+    """unused variables are removed (levels compacted) and the round trip must still hold"""
+    import dd.bdd as B
+    rnd = random.Random(c['seed'])
+    allv = ['p0', 'a', 'p1', 'b', 'p2', 'c', 'p3']
+    rnd.shuffle(allv)
+    b = B.BDD()
+    b.declare(*allv)
+    names = ['a', 'b', 'c']
+    held = []
+    for _ in range(3):
+        t = rnd.getrandbits(8)
+        u = build(b, t, names)
+        b.incref(u)
+        held.append((u, t))
+    extra = [v for v in allv if v.startswith('p')]
+    rm = rnd.sample(extra, rnd.randint(1, len(extra)))
+    if rnd.random() < .5:
+        b.undeclare_vars(*rm)
+    else:
+        b.undeclare_vars()
+    for u, t in held:
+        e = b.to_expr(u)
+        got = read(e, names, {})
+        require(got == t, 'to_expr#post:denotes-u', lambda: f'after undeclare_vars: tt={t} u={u}: {e!r} reads as {got}; vars={b.vars}')
+        require(b.add_expr(e) == u, 'to_expr#post:roundtrip', lambda: f'after undeclare_vars: {e!r}')
+        res.count('roundtrips-checked')
+    wf(b)
+    for u, _ in held:
+        b.decref(u)
+    return ('undeclare', tuple(allv), tuple(sorted(rm)))
